@@ -271,8 +271,19 @@ let run_config_op toks : string =
   | [ "E"; _cache; _n ] -> "same"     (* C17_new_is_builder: definitional in the model *)
   | _ -> failwith "bad config op"
 
+(* ---------- acceptance of atomic-action traces by Conc/Cell.v ---------- *)
+let parse_cact toks : cact =
+  match toks with
+  | [ "W"; t; k; v ] -> CWrite (n_of_string t, n_of_string k, n_of_string v)
+  | [ "X"; t; k ] -> CRemove (n_of_string t, n_of_string k)
+  | [ "R"; t; k; "-" ] -> CRead (n_of_string t, n_of_string k, None)
+  | [ "R"; t; k; v ] -> CRead (n_of_string t, n_of_string k, Some (n_of_string v))
+  | [ "E"; k ] -> CEnv (n_of_string k)
+  | _ -> failwith "bad cell action"
+
 type mode =
   | MNone
+  | MCell of ((n, n) gmap) option * int      (* current map (None = already rejected), position *)
   | MConfig
   | MSync of scfg * srun
   | MSketch of sketch
@@ -311,6 +322,7 @@ let process (ic : in_channel) =
            (match List.assoc_opt "kind" kv with
             | Some "sketch" -> mode := MSketch sk_empty
             | Some "config" -> mode := MConfig
+            | Some "celltrace" -> mode := MCell (Some cell_empty, 0)
             | Some "sync" ->
               let c = { sc_cap = opt_of_string (assoc_def "cap" kv "none");
                         sc_ttl = opt_of_string (assoc_def "ttl" kv "none");
@@ -331,6 +343,15 @@ let process (ic : in_channel) =
            (match !mode with
             | MNone -> failwith "operation before cfg"
             | MDead -> ()
+            | MCell (m, pos) ->
+              if toks = [ "END" ] then
+                Printf.printf "%d END -> %s\n" !idx (match m with Some _ -> "accept" | None -> Printf.sprintf "reject at action %d" pos)
+              else (match m with
+                  | None -> ()
+                  | Some mm ->
+                    (match cell_step mm (parse_cact toks) with
+                     | Some m' -> mode := MCell (Some m', pos + 1)
+                     | None -> mode := MCell (None, pos)))
             | MConfig -> Printf.printf "%d %s -> %s | -\n" !idx line (run_config_op toks)
             | MSync (_, _) when toks = [ "DROP" ] ->
               Printf.printf "%d %s -> - | dropped live=0:0\n" !idx line;
